@@ -1,7 +1,7 @@
 (* C09 — conditionals and format selectors include or elide exactly their scope. *)
 From Coq Require Import List NArith Bool String.
 Import ListNotations.
-Require Import St Ctl Loop Doc IfProofs.
+Require Import St Exp Proc1 Proc2 Proc3 Ctl Loop Doc IfProofs.
 Open Scope string_scope.
 
 (* False branch, for every conditional block, every nesting, every body, every recursive entry pb, every format:
